@@ -3,6 +3,7 @@ import Mimium.Props.C08
 import Mimium.Props.C05
 import Mimium.Props.C06
 import Mimium.Proofs.LiveCodingVoice
+import Mimium.Proofs.LiveCodingVoices
 /-!
 # C07 — hot swap after an edit preserves the state of untouched signal paths
 
@@ -278,6 +279,109 @@ theorem C07_session_fresh_voice (fuel : Nat) (sr : UInt64) (Pold Pnew : Prog) (l
     congr 1
     refine C06_agreeing_machines_same_future fuel Pnew sr inputs ln hln hself.symm hcov (k + 1) _ _ ⟨rfl, rfl, ?_⟩
     exact agree_transplant ln hln preN postN sj self cells hcn _ _ (canon_conformsS ln _ hln hcanon) hempty hw
+
+/-! ### voice programs: the channel of an untouched voice IS the voice's own uninterrupted stream
+
+`dsp() = let c_1 = f_1(k_1); …; let c_m = f_m(k_m); (c_a, c_b, …)` (`voicesBody`), no globals, first-order single-assignment
+functions (`SimpleProg`) — the programs of the generator.  `P₀` is any program that contains the voice's function (and what
+it calls) and is contained in the running program (`SubProg`), e.g. `fn dsp(){ f(k) }` — the oracle of the check;
+`instRun fuel₀ P₀ … (voiceSamples d k sr t n) st` = the values the voice alone returns, sample after sample, from state `st`. -/
+
+/-- **the stream of a voice program, channel by channel** (any voice program, no swap): if the voice alone runs without
+error for `k` samples from its current child node, every channel of the program that observes the voice carries exactly the
+values of that alone run, and every output row is the flattened tuple of the observed values -/
+theorem C07_voice_program_channel (P P₀ : Prog) (hP : SimpleProg P) (hP₀ : SimpleProg P₀) (hsub : SubProg P₀ P)
+    (pre post : List Voice) (v : Voice) (obs : List String)
+    (hname : v.name ∉ post.map (·.name)) (hs1 : v.site ∉ pre.map (·.site)) (hs2 : v.site ∉ post.map (·.site))
+    (d : FnDecl) (hd : findFn P₀.fns v.f = some d) (fuel fuel₀ : Nat) (hn : fuel₀ + pre.length + 3 ≤ fuel)
+    (sr : UInt64) (inputs : Nat → List UInt64)
+    (hpar : P.dsp.params = []) (hself : P.dsp.selfShape = none)
+    (hbody : P.dsp.body = voicesBody (pre ++ v :: post) (.tup (obs.map .var)))
+    (k : Nat) (root : SNode) (t : Nat) (rows : List (List UInt64))
+    (hrun : runFrom fuel P sr inputs k ⟨[], root, t⟩ = some rows)
+    (hok : ∀ o ∈ instRun fuel₀ P₀ d.selfShape d.body (voiceSamples d v.c sr t k) (root.childAt v.site), o ≠ none) :
+    ∃ valss : List (List Val), rows = valss.map flattenVals ∧
+      ∀ (i : Nat), obs[i]? = some v.name →
+        valss.map (fun vals => vals[i]?) =
+          instRun fuel₀ P₀ d.selfShape d.body (voiceSamples d v.c sr t k) (root.childAt v.site) := by
+  rw [← sessionFrom_nil] at hrun
+  exact voice_run P P₀ hP hP₀ hsub pre post v obs hname hs1 hs2 d hd fuel fuel₀ hn sr inputs hpar hself hbody k root t rows
+    hrun hok
+
+/-- **hot swap after an edit preserves the state of an untouched voice — for voice programs.**  The old program (any
+program with a published layout) runs `n` samples (outputs `o1`, machine `m`); the edit `Pnew`, a voice program, is swapped
+in.  Let the voice `v` of `Pnew` (function `d`, constant `v.c`, site `v.site`) have the labelled layout `⟨self, cells⟩`
+published for `d`, let the old layout hold a child with the same labelled layout at site `si` (the voice before the edit,
+at whatever position), and let the plan the runtimes apply carry that child's word range to the voice's new position.
+Then, for every number `k` of further samples: if the voice ALONE (program `P₀`), continued from the state it had in the old
+program just before the swap (`m.root.childAt si`) and fed the constant of the new program, runs without error, every
+output row of the session after the swap is the flattened tuple of the observed values and EVERY CHANNEL THAT OBSERVES THE
+VOICE CARRIES EXACTLY THE VALUES OF THAT UNINTERRUPTED RUN OF THE VOICE.
+(`hconf`, `hvoice`: the old `dsp` tree conforms to its layout, the voice's `self` values have their declared shape — typing
+facts; `hpub₀ … hd₀`: the voice's function is in the class of C05's theorems.) -/
+theorem C07_session_untouched_voice (fuel fuel₀ : Nat) (sr : UInt64) (Pold Pnew P₀ : Prog) (lo ln : LNode)
+    (preO postO preN postN : List LCell) (si : Nat) (self : Option Shape) (cells : List LCell)
+    (pre post : List Voice) (v : Voice) (obs : List String) (d : FnDecl) (n₀ : Nat)
+    (inputs : Nat → List UInt64) (n : Nat) (m0 mn m : Machine) (o1 : List (List UInt64))
+    -- the new program is a voice program, `P₀` holds the voice's function
+    (hP : SimpleProg Pnew) (hP₀ : SimpleProg P₀) (hsub : SubProg P₀ Pnew)
+    (hname : v.name ∉ post.map (·.name)) (hs1 : v.site ∉ pre.map (·.site)) (hs2 : v.site ∉ post.map (·.site))
+    (hd : findFn P₀.fns v.f = some d) (hn : fuel₀ + pre.length + 3 ≤ fuel)
+    (hpar : Pnew.dsp.params = []) (hself : Pnew.dsp.selfShape = none)
+    (hbody : Pnew.dsp.body = voicesBody (pre ++ v :: post) (.tup (obs.map .var)))
+    -- the layouts
+    (hpo : publishFn Pold Pold.dsp = some lo) (hpn : publishFn Pnew Pnew.dsp = some ln)
+    (hs : SitesUnique Pnew) (hds : SitesOk Pnew.dsp.body)
+    (hco : lo.cells = preO ++ .child si self cells :: postO) (hcn : ln.cells = preN ++ .child v.site self cells :: postN)
+    (hpub₀ : publishFnN n₀ P₀ d = some ⟨self, cells⟩) (harms₀ : noStateInArmsN n₀ P₀ d.body = true)
+    (hs₀ : SitesUnique P₀) (hd₀ : SitesOk d.body)
+    -- the plan carries the voice
+    (hcar : carriesRange (planPatches (publishedSk lo) (publishedSk ln)) (selfSize lo.self + sizeCells preO)
+      (selfSize ln.self + sizeCells preN) (LNode.size ⟨self, cells⟩) = true)
+    -- the run up to the swap
+    (hinit : Machine.init fuel Pold sr = .ok m0) (hinitn : Machine.init fuel Pnew sr = .ok mn)
+    (hpre : prefixRun fuel Pold sr inputs n m0 = some (o1, m))
+    (hconf : Conforms lo m.root) (hvoice : ConformsS ⟨self, cells⟩ (m.root.childAt si))
+    (k : Nat) (rows : List (List UInt64))
+    (hrun : session fuel sr Pold [(n, Pnew)] inputs (n + k) = some rows)
+    (hok : ∀ o ∈ instRun fuel₀ P₀ d.selfShape d.body (voiceSamples d v.c sr n k) (m.root.childAt si), o ≠ none) :
+    ∃ valss : List (List Val), rows = o1 ++ valss.map flattenVals ∧
+      ∀ (i : Nat), obs[i]? = some v.name →
+        valss.map (fun vals => vals[i]?) =
+          instRun fuel₀ P₀ d.selfShape d.body (voiceSamples d v.c sr n k) (m.root.childAt si) := by
+  obtain ⟨st', hsw, hcanon, hw⟩ := C07_swapState_carried_voice Pold Pnew lo ln preO postO preN postN si v.site self cells
+    hpo hpn hs hds hco hcn m.root hconf hcar
+  have hln := C05_publish_ok Pnew.fns.length Pnew Pnew.dsp ln hs hds hpn
+  have htm : m.t = n := by
+    rw [prefixRun_t fuel Pold sr inputs n m0 o1 m hpre, (init_t fuel Pold sr m0 hinit).1]; omega
+  have hstore : mn.store = [] := (init_store_nil fuel Pnew sr hP.1 mn hinitn).1
+  -- the voice alone cannot tell the migrated child from the old one
+  have hchild : ConformsS ⟨self, cells⟩ (st'.childAt v.site) :=
+    conformsS_child ln preN postN v.site self cells hcn st' (canon_conformsS ln st' hln hcanon)
+  have heq : ∀ samples, instRun fuel₀ P₀ d.selfShape d.body samples (st'.childAt v.site) =
+      instRun fuel₀ P₀ d.selfShape d.body samples (m.root.childAt si) := fun samples =>
+    C05_published_same_words_same_eval_future fuel₀ n₀ P₀ d ⟨self, cells⟩ samples _ _ hpub₀ harms₀ hs₀ hd₀ hchild hvoice hw
+  cases k with
+  | zero =>
+    have := sessionFrom_prefix fuel sr [(n, Pnew)] inputs Pold 0 n m0 (by simp [(init_t fuel Pold sr m0 hinit).1])
+    simp only [session, hinit] at hrun
+    rw [this, hpre] at hrun
+    simp only [sessionFrom, Option.map_some, List.append_nil, Option.some.injEq] at hrun
+    subst hrun
+    exact ⟨[], by simp, fun i _ => by simp [voiceSamples, instRun]⟩
+  | succ k =>
+    rw [session_one_swap fuel sr Pold Pnew inputs n k m0 hinit o1 m hpre] at hrun
+    have hso : swapOne fuel sr Pold m Pnew = some (Pnew, ⟨[], st', n⟩) := by
+      simp [swapOne, hpn, hsw, hinitn, hstore, htm]
+    simp only [hso] at hrun
+    cases hr : sessionFrom fuel sr [] inputs (k + 1) Pnew ⟨[], st', n⟩ with
+    | none => simp [hr] at hrun
+    | some rows' =>
+      simp only [hr, Option.map_some, Option.some.injEq] at hrun
+      subst hrun
+      obtain ⟨valss, e1, e2⟩ := voice_run Pnew P₀ hP hP₀ hsub pre post v obs hname hs1 hs2 d hd fuel fuel₀ hn sr inputs hpar
+        hself hbody (k + 1) st' n rows' hr (by rw [heq]; exact hok)
+      exact ⟨valss, by rw [e1], fun i hi => by rw [e2 i hi, heq]⟩
 
 /-- the judge's test `carriesChild` (child INDICES of the published skeletons) gives the hypothesis `carriesRange` (word
 OFFSETS of the labelled layouts) of the two theorems above, when no child of `dsp` is pruned from the skeletons (every call
